@@ -467,7 +467,80 @@ def check_script(ctx, case):
     ctx.nt(('script', case['d'], case['tmpl'], cfg, via, network, case.get('compressed', True)))
 
 
-DISPATCH = {'priv': check_priv, 'pub': check_pub, 'nonpriv': check_nonpriv, 'script': check_script}
+def check_addr_history(ctx, case):
+    """Several address requests on ONE key object. Every request names script type, encoding and serialisation
+    explicitly, so the expected answer is a function of the request and of the object's current network alone:
+    the standard encoding for that choice, whatever was asked before. case: kind=addr_history, cls Key|HDKey,
+    secret, network, ops [{'op': 'address', 'cfg', 'compressed', 'prefix'} | {'op': 'network_change', 'net'} |
+    {'op': 'address_obj'}]"""
+    from ref import ec, address as A, base58
+    from ref.hashes import hash160
+    keys = _lib()
+    d = _sint(case['secret'])
+    pt = ec.pubkey(d)
+    net = case['network']
+    try:
+        if case['cls'] == 'HDKey':
+            k = keys.HDKey(d.to_bytes(32, 'big'), network=net)
+        else:
+            k = keys.Key(d, network=net)
+    except Exception as e:
+        raise Discrepancy('addr_history.construct.raises', '%s(%x, network=%s) raised %r' % (case['cls'], d, net, e), case)
+    last = None
+    done = []
+    for op in case['ops']:
+        if op['op'] == 'network_change':
+            if case['cls'] != 'HDKey':
+                continue
+            try:
+                k.network_change(op['net'])
+            except Exception as e:
+                ctx.refusal('network_change.%s' % type(e).__name__)
+                continue
+            net = op['net']
+            last = None
+            done.append('network_change(%s)' % net)
+            continue
+        if op['op'] == 'address_obj':
+            if last is None:
+                continue
+            try:
+                got = k.address_obj.address
+            except Exception as e:
+                raise Discrepancy('addr_history.address_obj.raises', 'address_obj raised %r after %s' % (e, done), case)
+            if got != last:
+                raise Discrepancy('addr_history.address_obj', 'address_obj.address = %s, the address() call just before '
+                                  'returned %s (after %s)' % (got, last, done), case)
+            continue
+        cfg = op['cfg']
+        comp = op['compressed']
+        st_, enc = CFG_ARGS[cfg]
+        if not comp and cfg != 'p2pkh':
+            cfg, (st_, enc) = 'p2pkh', CFG_ARGS['p2pkh']
+        if cfg != 'p2pkh' and net.startswith('dogecoin'):
+            cfg, (st_, enc) = 'p2pkh', CFG_ARGS['p2pkh']
+        pub = ec.ser_compressed(pt) if comp else ec.ser_uncompressed(pt)
+        prefix = op.get('prefix') if cfg == 'p2pkh' else None
+        if prefix is None:
+            want = _exp_addr(pub, net, cfg)
+        else:
+            want = base58.check_encode(bytes.fromhex(prefix) + hash160(pub))
+        what = 'address(compressed=%s, prefix=%r, script_type=%r, encoding=%r)' % (comp, prefix, st_, enc)
+        try:
+            got = k.address(compressed=comp, prefix=None if prefix is None else bytes.fromhex(prefix), script_type=st_,
+                            encoding=enc)
+        except Exception as e:
+            raise Discrepancy('addr_history.address.raises', '%s on %s raised %r after %s' % (what, net, e, done), case)
+        if got != want:
+            raise Discrepancy('addr_history.address:%s' % cfg, '%s.%s on network %s = %s, standard encoding is %s '
+                              '(earlier on this object: %s)' % (case['cls'], what, net, got, want, done), case)
+        last = got
+        done.append(what)
+        ctx.count()
+
+
+DISPATCH = {'priv': check_priv, 'pub': check_pub, 'nonpriv': check_nonpriv, 'script': check_script,
+            'addr_history': check_addr_history}
 
 
 def replay(ctx, case):
@@ -729,3 +802,26 @@ def run(ctx):
     ctx.run_given('nonpub', pub_nok, _wrap(ctx, check_pub), ctx.scale(70, 1200))
     ctx.run_given('nonpriv', nonpriv, _wrap(ctx, check_nonpriv), ctx.scale(50, 800))
     ctx.run_given('script', script, _wrap(ctx, check_script), ctx.scale(40, 600))
+
+    # several requests on one object (caches of the Address object)
+    from hypothesis import strategies as hst
+    from vlib import gen as _gen
+    from ref.address import NETWORK_NAMES
+    nets = hst.sampled_from(NETWORK_NAMES)
+    aop = hst.one_of(
+        hst.fixed_dictionaries({'op': hst.just('address'), 'cfg': hst.sampled_from(KEY_CFGS + ['p2pkh']),
+                                'compressed': hst.sampled_from([True, True, False]),
+                                'prefix': hst.sampled_from([None, None, None, '6f', '00', '30', '1e'])}),
+        hst.fixed_dictionaries({'op': hst.just('network_change'), 'net': nets}),
+        hst.just({'op': 'address_obj'}))
+    hist = hst.fixed_dictionaries({'kind': hst.just('addr_history'), 'cls': hst.sampled_from(['Key', 'HDKey']),
+                                   'secret': _gen.secrets().map(_h), 'network': nets,
+                                   'ops': hst.lists(aop, min_size=2, max_size=6)})
+
+    def p_hist(case):
+        ctx.nt(('addr_history', case['cls'], case['secret'], case['network'], str(case['ops'])))
+        ctx.klass('addr_history.' + case['cls'])
+        if any(o['op'] == 'network_change' for o in case['ops']) and case['cls'] == 'HDKey':
+            ctx.klass('addr_history.network_change')
+        check_addr_history(ctx, case)
+    ctx.run_given('addr_history', hist, p_hist, ctx.scale(120, 3000))
